@@ -577,8 +577,12 @@ func (d *dataCloser) Close() error {
 			}
 			expectedResponses--
 		}
+		// The transaction is over, its recipients must not be reported
+		// again for the next one on this connection.
+		d.c.rcpts = nil
 	} else {
 		_, _, err := d.c.readResponse(250)
+		d.c.rcpts = nil
 		if err != nil {
 			return err
 		}
